@@ -60,8 +60,11 @@ func c11Class(in, norm []byte) string {
 			return "cleaned-token-contains-https"
 		}
 	}
-	for _, l := range strings.Split(string(norm), "\n") {
-		if refIsNoticeLine(l) {
+	// the mechanism: a line that is NOT a notice as written becomes one once its words are cleaned
+	// (Normalize keeps the line numbering, so line i of the normalized text is line i of the input)
+	raw := strings.Split(string(in), "\n")
+	for i, l := range strings.Split(string(norm), "\n") {
+		if refIsNoticeLine(l) && i < len(raw) && !refIsNoticeLine(raw[i]) {
 			return "line-matches-notice-only-after-cleaning"
 		}
 	}
